@@ -30,11 +30,22 @@ def findNamespace : List Cmd → Option (Bytes × Autoescape)
   | .namespace _ n ae :: _ => some (n, ae)
   | _ => none
 
-/-- leading `HeaderParamNode`s of a template body and the remaining commands -/
+/-- `strings.Trim(text, " \t\r\n") == ""` -/
+def isBlank (t : Bytes) : Bool := t.all fun b => b == 32 || b == 9 || b == 13 || b == 10
+
+/-- leading `HeaderParamNode`s of a template body and the commands after the LAST of them; raw text that is
+    blank between two of them is not template text (`{@param a: ?} {@param b: ?}` on one line), a blank after
+    the last one stays -/
 def splitHeaderParams : CmdList → List Check.Param × CmdList
   | .cons (.headerParam _ opt name _ _ _) rest =>
     let (ps, r) := splitHeaderParams rest
     ({ name := name, optional := opt } :: ps, r)
+  | .cons (.rawText p txt) rest =>
+    if isBlank txt then
+      match splitHeaderParams rest with
+      | ([], _) => ([], .cons (.rawText p txt) rest)
+      | (ps, r) => (ps, r)
+    else ([], .cons (.rawText p txt) rest)
   | cmds => ([], cmds)
 
 /-- the template loop of `Add` over `soyfile.Body`; `prev` is `Body[i-1]` -/
